@@ -5,10 +5,13 @@ package wire
 import (
 	"bytes"
 	"encoding/binary"
+	"errors"
 	"fmt"
 	"io"
 	"net"
+	"os"
 	"runtime"
+	"runtime/debug"
 	"sort"
 	"strings"
 	"sync"
@@ -358,6 +361,8 @@ type checker struct {
 	nPieceFrames, nPieceBytes, nUploadEvents          int64
 	nKeepAlives, nPolicy, nForeign, nOutgrow          int64
 	nDupReject                                        int64
+	nPairCases, nPairMsgs, nPairUploads               int64
+	nAllPos                                           int64
 	kinds                                             [numKinds]int64
 }
 
@@ -410,7 +415,6 @@ func (ck *checker) checkWire(res wres) bool {
 		ck.col.add("C11.wire."+cause+"."+grp, c.idx,
 			fmt.Sprintf("ops %s through the real PeerWriter: %s (stream %d bytes, reference %d bytes)", c.desc(), detail, len(res.wire), len(want)), c.replay())
 	}
-	// the writer hands every frame to the transport in one Write (a frame split over Writes could be interleaved with nothing here, but the count documents it)
 	// oracle 3: upload counter vs the piece payload the reference decoder sees on the wire
 	msgs, rest := refcodec.ParseStream(res.wire)
 	var payload, pieces int64
@@ -634,23 +638,42 @@ func learnExtIDs(t *testing.T, log logger.Logger) (ids extIDs) {
 	synctest.Test(t, func(t *testing.T) {
 		res = runWriter(log, &wcase{ops: []msg{{K: kExtHandshake, HS: &hsSpec{1, "x", "", 1}}}})
 	})
+	a, b := int64(-1), int64(-1)
 	msgs, rest := refcodec.ParseStream(res.wire)
-	if len(msgs) != 1 || len(rest) != 0 || msgs[0].ID != refcodec.MsgExtended || msgs[0].ExtID() != 0 {
-		core.HarnessError("cannot learn the advertised extension ids: writer produced %x", res.wire)
+	if len(msgs) == 1 && len(rest) == 0 && msgs[0].ID == refcodec.MsgExtended && msgs[0].ExtID() == 0 {
+		if d, trailing, err := refcodec.DecodeExtPayload(msgs[0].ExtPayload()); err == nil && len(trailing) == 0 {
+			if mv, ok := d.Get("m"); ok {
+				if md, ok := mv.(*refcodec.Dict); ok {
+					a, _ = md.Int("ut_metadata")
+					b, _ = md.Int("ut_pex")
+				}
+			}
+		}
 	}
-	d, trailing, err := refcodec.DecodeExtPayload(msgs[0].ExtPayload())
-	if err != nil || len(trailing) != 0 {
-		core.HarnessError("extension handshake does not decode: %v (%x)", err, res.wire)
+	if a < 0 {
+		// the frame is not a well-formed extension handshake (that is reported by the wire oracle on the
+		// lattice itself); still find the two advertised numbers so that the run can go on
+		scan := func(key string) int64 {
+			i := bytes.Index(res.wire, []byte(key))
+			if i < 0 {
+				return -1
+			}
+			var n int64 = -1
+			for _, ch := range res.wire[i+len(key):] {
+				if ch < '0' || ch > '9' {
+					break
+				}
+				if n < 0 {
+					n = 0
+				}
+				n = n*10 + int64(ch-'0')
+			}
+			return n
+		}
+		a, b = scan("11:ut_metadatai"), scan("6:ut_pexi")
 	}
-	mv, _ := d.Get("m")
-	md, ok := mv.(*refcodec.Dict)
-	if !ok {
-		core.HarnessError("extension handshake has no m dictionary: %x", res.wire)
-	}
-	a, ok1 := md.Int("ut_metadata")
-	b, ok2 := md.Int("ut_pex")
-	if !ok1 || !ok2 || a <= 0 || a > 255 || b <= 0 || b > 255 || a == b {
-		core.HarnessError("extension handshake advertises unusable ids: ut_metadata=%d ut_pex=%d", a, b)
+	if a <= 0 || a > 255 || b <= 0 || b > 255 || a == b {
+		core.HarnessError("cannot learn the advertised extension ids (ut_metadata=%d ut_pex=%d) from %x", a, b, res.wire)
 	}
 	return extIDs{meta: uint8(a), pex: uint8(b)}
 }
@@ -658,6 +681,7 @@ func learnExtIDs(t *testing.T, log logger.Logger) (ids extIDs) {
 // ---------------------------------------------------------------------------------------------
 
 func TestC11(t *testing.T) {
+	debug.SetGCPercent(400) // short-lived 16 KiB buffers per reader run; the live heap is small
 	logger.Disable()
 	log := logger.New("c11")
 	rep := core.NewReport("C11", "wire", "exploration")
@@ -688,11 +712,14 @@ func TestC11(t *testing.T) {
 	}
 	full, r, strd, cut2r := 96, 18, 0, 18
 	if thorough {
-		full, r, strd, cut2r = 160, 40, 1024, 24
+		full, r, strd, cut2r = 160, 40, 1024, 32
 	}
 	sg := singles(thorough, ids)
 	for _, m := range sg {
 		add("single", []msg{m}, full, r, strd, true, cut2r)
+	}
+	for _, m := range bigs(ids) { // every one of the ~16k cut positions once for each big frame kind (1-cuts only)
+		add("single", []msg{m}, 1<<20, 0, 0, false, 0)
 	}
 	nSingles := len(cases)
 	level, depth := 1, 3
@@ -748,6 +775,27 @@ func TestC11(t *testing.T) {
 		}
 	}
 
+	// the peerconn.Conn seam: every single representative, every ordered pair, every big frame (+ big,small,big)
+	var pairCases []*wcase
+	{
+		all := reps(2, ids)
+		addP := func(ops ...msg) {
+			pairCases = append(pairCases, &wcase{idx: int64(len(cases) + len(pairCases)), part: "connpair", ops: append([]msg{}, ops...)})
+		}
+		for _, m := range all {
+			addP(m)
+		}
+		for _, m := range all {
+			for _, m2 := range all {
+				addP(m, m2)
+			}
+		}
+		for _, bm := range bg {
+			addP(bm)
+			addP(bm, small[2], bm)
+		}
+	}
+
 	// ---- run: writer phase inside synctest bubbles (virtual clock), reader phase on plain goroutines
 	caseC := make(chan *wcase, 256)
 	resC := make(chan wres, 64)
@@ -764,6 +812,10 @@ func TestC11(t *testing.T) {
 				for c := range caseC {
 					for i := range c.ops {
 						c.ops[i] = c.ops[i].materialize()
+					}
+					if c.part == "connpair" {
+						ck.checkConnPair(c, runConnPair(log, c, ck.maxMsgSize))
+						continue
 					}
 					resC <- runWriter(log, c)
 				}
@@ -811,10 +863,29 @@ func TestC11(t *testing.T) {
 			}
 		}()
 	}
+	if os.Getenv("VERIF_C11_DEBUG") != "" {
+		t0 := time.Now()
+		go func() {
+			for {
+				time.Sleep(2 * time.Second)
+				fmt.Fprintf(os.Stderr, "t=%.0fs writer_cases=%d reader_runs=%d\n", time.Since(t0).Seconds(), atomic.LoadInt64(&ck.nWriterCases), atomic.LoadInt64(&ck.nReaderRuns))
+			}
+		}()
+	}
 	for i, c := range cases {
 		if i%(len(cases)/12+1) == 0 {
 			rep.Sample(14, c.part+": "+c.desc())
 		}
+	}
+	// dispatch the expensive cases first (scheduling only; violations are ordered by case index)
+	for _, part := range []string{"reuse", "single", "seq"} {
+		for _, c := range cases {
+			if c.part == part {
+				caseC <- c
+			}
+		}
+	}
+	for _, c := range pairCases {
 		caseC <- c
 	}
 	close(caseC)
@@ -823,10 +894,13 @@ func TestC11(t *testing.T) {
 	rwg.Wait()
 
 	// ---- handshake
-	hs := checkHandshakes(ck, thorough, int64(len(cases)))
+	hs := checkHandshakes(ck, thorough, int64(len(cases)+len(pairCases)))
 
 	col.flush(rep)
-	rep.Evaluations = ck.nReaderRuns + ck.nWriterCases + hs.evals
+	rep.Evaluations = ck.nReaderRuns + ck.nWriterCases + ck.nPairCases + hs.evals
+	rep.Extra["connpair_cases"] = ck.nPairCases
+	rep.Extra["connpair_messages_delivered"] = ck.nPairMsgs
+	rep.Extra["connpair_block_uploaded_events"] = ck.nPairUploads
 	rep.Distinct = int64(len(distinct))
 	rep.Extra["writer_cases"] = ck.nWriterCases
 	rep.Extra["writer_cases_single"] = int64(nSingles)
@@ -861,7 +935,7 @@ func TestC11(t *testing.T) {
 		}
 	}
 	rep.Extra["ops_per_kind"] = km
-	if ck.nKeepAlives == 0 || ck.nUploadEvents == 0 || ck.nOutgrow == 0 || ck.nCut2 == 0 || ck.nDupReject == 0 || hs.acceptRuns == 0 {
+	if ck.nKeepAlives == 0 || ck.nUploadEvents == 0 || ck.nOutgrow == 0 || ck.nCut2 == 0 || ck.nDupReject == 0 || hs.acceptRuns == 0 || ck.nPairMsgs == 0 || ck.nPairUploads == 0 {
 		core.HarnessError("vacuous run: keepalives=%d uploads=%d outgrow=%d cut2=%d dup=%d accept=%d", ck.nKeepAlives, ck.nUploadEvents, ck.nOutgrow, ck.nCut2, ck.nDupReject, hs.acceptRuns)
 	}
 	rep.Finish()
@@ -1033,23 +1107,37 @@ func dialLoopback(ck *checker, pats [][8]byte, ih, ourID [20]byte, idx int64) (r
 			sc <- srv{b, err}
 		}()
 		stop := make(chan struct{})
-		conn, _, pext, pid, err := btconn.Dial(ln.Addr(), 10*time.Second, 10*time.Second, false, false, r, ih, ourID, stop)
-		s := <-sc
-		runs++
-		desc := fmt.Sprintf("btconn.Dial reserved=%x", r)
-		if s.err != nil {
-			continue // environment trouble on loopback, not a finding
+		conn, _, pext, pid, err := btconn.Dial(ln.Addr(), 5*time.Minute, 5*time.Minute, false, false, r, ih, ourID, stop)
+		cleanup := func() {
+			if conn != nil {
+				conn.Close()
+			}
+			close(stop)
 		}
-		if want := refcodec.Handshake(ih, ourID, r); !bytes.Equal(s.got, want) {
+		desc := fmt.Sprintf("btconn.Dial reserved=%x", r)
+		var hsErr *btconn.HandshakeError
+		if err != nil && !errors.As(err, &hsErr) {
+			// socket-level trouble (refused, timeout under load, reset): environment, not a finding, not counted.
+			// The serving goroutine may still sit in Accept: wake it up.
+			ln.(*net.TCPListener).SetDeadline(time.Now())
+			<-sc
+			ln.(*net.TCPListener).SetDeadline(time.Time{})
+			cleanup()
+			continue
+		}
+		s := <-sc
+		if s.err != nil && err == nil {
+			cleanup()
+			continue // the serving side had socket trouble
+		}
+		runs++
+		if want := refcodec.Handshake(ih, ourID, r); s.err == nil && !bytes.Equal(s.got, want) {
 			ck.col.add("C11.handshake.dial.bytes", idx, fmt.Sprintf("%s: first 68 bytes on the socket %x, BEP 3 reference %x", desc, s.got, want), desc)
 		}
 		if err != nil || pext != peerExt || pid != peerID {
 			ck.col.add("C11.handshake.dial.read", idx, fmt.Sprintf("%s: Dial returned reserved=%x peerid=%x err=%v, the peer sent reserved=%x peerid=%x", desc, pext, pid, err, peerExt, peerID), desc)
 		}
-		if conn != nil {
-			conn.Close()
-		}
-		close(stop)
+		cleanup()
 	}
 	return runs
 }
